@@ -639,6 +639,15 @@ func (gen *generator) gepExprType(old *ast.GetElementPtrExpr) (types.Type, error
 	for _, index := range old.Indices() {
 		indexVal := index.Index().Val()
 		idx := gen.getIndex(indexVal)
+		// Check if index is of vector type.
+		indexType, err := gen.irType(index.Index().Typ())
+		if err != nil {
+			return nil, errors.WithStack(err)
+		}
+		if indexType, ok := indexType.(*types.VectorType); ok {
+			idx.VectorLen = indexType.Len
+			idx.Scalable = indexType.Scalable
+		}
 		idxs = append(idxs, idx)
 	}
 	return gep.ResultType(elemType, src, idxs), nil
